@@ -67,7 +67,7 @@ STATE_FILE = "accessory.state"
 POINTS = ("mktemp", "snapshot", "write", "close", "replace", "exists", "remove")
 CLEANUP_POINTS = ("exists", "remove")
 INIT_ID = 900000
-HANG_S = 30.0
+HANG_S = 20.0
 
 
 class Injected(OSError):
@@ -762,7 +762,8 @@ def crash_scenario(ctx: Ctx, scn: dict, model_cases: list, only_k: Optional[int]
         rig.orig_encode(rec, rig.state)
         new_chunks = rec.chunks
         base_dir = rig.dir
-        k = only_k or 1
+        stride = 1 if only_k else int(scn.get("stride", 1))
+        k = only_k or int(scn.get("offset", 1))
         total = None
         while True:
             d = tempfile.mkdtemp(prefix="c15k-")
@@ -835,7 +836,7 @@ def crash_scenario(ctx: Ctx, scn: dict, model_cases: list, only_k: Optional[int]
             shutil.rmtree(d, ignore_errors=True)
             if only_k or not crashed:
                 break
-            k += 1
+            k += stride
         rig.dir = base_dir
         return total
     finally:
@@ -851,7 +852,11 @@ def crash_scenarios(ctx: Ctx) -> List[dict]:
     out.append({"name": "add-second-controller", "initial": i0, "ops": ops, "prev_on_disk": True})
     i0, ops = mk_ops(rng, 0, 1)
     out.append({"name": "first-save-no-file", "initial": i0, "ops": ops, "prev_on_disk": False})
-    if not ctx.quick:
+    # the same save with every Python frame under it traced (stdlib included): all points in the thorough
+    # tier, every 7th (seeded offset) in the quick tier
+    if ctx.quick:
+        out.append(dict(out[0], name="add-second-controller-every-python-frame", deep=True, stride=7, offset=rng.randrange(1, 8)))
+    else:
         out.append(dict(out[0], name="add-second-controller-every-python-frame", deep=True))
         i0, _ = mk_ops(rng, 3, 0)
         out.append({"name": "remove-controller-shrinks-file", "initial": i0, "ops": [{"op": "unpair", "id": i0[1]["id"]}], "prev_on_disk": True})
@@ -867,6 +872,8 @@ def crash_scenarios(ctx: Ctx) -> List[dict]:
 def fault_case(ctx: Ctx, scn: dict, saves: List[List[list]], model_cases: list, verbose=False):
     """Consecutive saves of one driver; saves[i] = faults [[point, nth], ...] injected into save i.
     Before save i (i > 0) the next pairing change of the scenario is applied."""
+    if getattr(ctx, "hung", False):
+        return {}
     st = ctx.stats
     faults = [(i, p, n) for i, fs in enumerate(saves) for p, n in fs]
     ctl = Ctl(faults=faults)
@@ -922,6 +929,7 @@ def fault_case(ctx: Ctx, scn: dict, saves: List[List[list]], model_cases: list, 
         model_cases.append(mc)
         return ctl.count
     except Hung as ex:
+        ctx.hung = True  # threads of this process are stuck: stop exercising the save
         ctx.fail("C15:save-blocks-forever", f"fault case {saves}: {ex}", replay)
         return {}
     finally:
@@ -990,6 +998,8 @@ def schedule_case(ctx: Ctx, scn: dict, cmds: List[list], model_cases: list, time
     """cmds: ["mut", op] (pairing change through driver.pair/unpair -> a background job),
     ["run", j, [point, nth] | None] (let job j run until it is about to perform that call / to its end).
     Returns per-run results.  At the end everything is released and awaited."""
+    if getattr(ctx, "hung", False):
+        return [], []
     st = ctx.stats
     ctl = Ctl(forced=True, faults=faults)
     rig = Rig(ctl, scn["initial"], with_loop=True, write_initial=True)
@@ -1052,6 +1062,7 @@ def schedule_case(ctx: Ctx, scn: dict, cmds: List[list], model_cases: list, time
             print("events:", [f"{j}:{p}" if j is not None else p for j, p, _ in rig.hooks.log if p != "write"])
         return results, rig.hooks.log
     except Hung as ex:
+        ctx.hung = True
         ctx.fail("C15:save-blocks-forever", f"schedule {cmds}: {ex}", replay)
         return results, []
     finally:
@@ -1135,6 +1146,8 @@ def schedule_stream(ctx: Ctx, model_cases: list):
 
 def natural_case(ctx: Ctx, scn: dict, ops: List[dict], jitter: Dict[str, float], gaps: List[float], verbose=False):
     """driver.pair()/unpair() back to back on a running loop, jobs free-running in the default executor."""
+    if getattr(ctx, "hung", False):
+        return True
     st = ctx.stats
     jit = {}
     for k, d in jitter.items():
@@ -1173,6 +1186,7 @@ def natural_case(ctx: Ctx, scn: dict, ops: List[dict], jitter: Dict[str, float],
             print("replace order of the jobs:", order, "->", "file == memory" if which else "STALE: " + why)
         return which is not None
     except Hung as ex:
+        ctx.hung = True
         ctx.fail("C15:save-blocks-forever", f"natural run: {ex}", replay)
         return False
     finally:
@@ -1236,7 +1250,8 @@ def run(ctx: Ctx):
             total = crash_scenario(ctx, scn, model_cases)
             st.notes.append(
                 f"crash[{scn['name']}]: {total} source-line events inside one save "
-                f"({'all Python frames incl. stdlib' if scn.get('deep') else 'pyhap frames + json.dump'}), each tried"
+                f"({'all Python frames incl. stdlib' if scn.get('deep') else 'pyhap frames + json.dump'}), "
+                + ("each tried" if int(scn.get("stride", 1)) == 1 else f"every {scn['stride']}th tried from {scn['offset']}")
             )
         fault_stream(ctx, model_cases)
         schedule_stream(ctx, model_cases)
@@ -1256,6 +1271,9 @@ def search(ctx: Ctx):
     logging.disable(logging.CRITICAL)
     try:
         sink: list = []
+        for scn in crash_scenarios(ctx):
+            if threading.active_count() == 1:  # fork wants a single-threaded parent
+                crash_scenario(ctx, scn, sink)
         schedule_stream(ctx, sink)
         natural_stream(ctx)
         fault_stream(ctx, sink)
